@@ -521,6 +521,17 @@ pub fn set_http_style(seed: u64) {
     HTTP_STYLE.with(|c| c.set(seed));
 }
 
+/// The same request in every style of the sweep (all Content-Types, body whole and in pieces).
+pub fn http_post_sweep(port: u16, doc: &[u8], add_metadata: Option<bool>, timeout: Duration) -> Vec<Option<HttpResult>> {
+    let mut v = Vec::new();
+    for style in 1..=20u64 {
+        set_http_style(style);
+        v.push(http_post(port, doc, add_metadata, timeout));
+    }
+    set_http_style(0);
+    v
+}
+
 pub fn http_post(port: u16, doc: &[u8], add_metadata: Option<bool>, timeout: Duration) -> Option<HttpResult> {
     let style = HTTP_STYLE.with(|c| c.get());
     let mut rng = crate::rng::Rng::sub(style, "http-style");
@@ -536,10 +547,17 @@ pub fn http_post(port: u16, doc: &[u8], add_metadata: Option<bool>, timeout: Dur
         Some(b"text/xml; name=\"caf\xe9.xml\""),
         None,
     ];
-    let ct: Option<&[u8]> = if style == 0 { Some(b"text/plain") } else { content_types[rng.usize(content_types.len())] };
+    // (styles 1..=20 are the sweep: every Content-Type, body whole for odd and in pieces for even)
+    let ct: Option<&[u8]> = if style == 0 {
+        Some(b"text/plain")
+    } else if style <= 20 {
+        content_types[((style - 1) / 2) as usize % content_types.len()]
+    } else {
+        content_types[rng.usize(content_types.len())]
+    };
     // body pieces
     let mut cuts: Vec<usize> = Vec::new();
-    if style != 0 && doc.len() > 2 && rng.chance(2, 3) {
+    if style != 0 && doc.len() > 2 && (if style <= 20 { style % 2 == 0 } else { rng.chance(2, 3) }) {
         let multibyte: Vec<usize> = (1..doc.len()).filter(|i| doc[*i] & 0xC0 == 0x80).collect();
         for _ in 0..1 + rng.usize(3) {
             let c = if !multibyte.is_empty() && rng.chance(1, 2) { multibyte[rng.usize(multibyte.len())] } else { 1 + rng.usize(doc.len() - 1) };
